@@ -13,6 +13,10 @@ OPS = [("<", operator.lt), ("<=", operator.le), ("==", operator.eq), ("!=", oper
 ORDER_OPS = [("<", operator.lt), ("<=", operator.le), (">", operator.gt), (">=", operator.ge)]
 
 
+def p0_like(lsp):
+    return lsp.Position(line=0, character=0)
+
+
 def run(ctx):
     lsp = impl.lsp()
     res = Result()
@@ -90,7 +94,13 @@ def run(ctx):
             bad("repr", "Location", "repr(Location%r) = %r, expected %r" % (x, repr(lx), want_repr), [x])
     # unrelated objects and cross pairs
     p0, r0, l0 = P(line=0, character=0), mk_r((0, 0), (0, 0)), L(uri="file:///a", range=mk_r((0, 0), (0, 0)))
-    others = [None, (0, 0), "0:0", 0, lsp.TextDocumentIdentifier(uri="file:///a"), object()]
+    import types as _types
+    # unrelated objects, including ones that merely look alike (same attribute names and equal values)
+    others = [None, (0, 0), "0:0", 0, lsp.TextDocumentIdentifier(uri="file:///a"), object(),
+              _types.SimpleNamespace(line=0, character=0), _types.SimpleNamespace(start=p0_like(lsp), end=p0_like(lsp)),
+              _types.SimpleNamespace(uri="file:///a", range=mk_r((0, 0), (0, 0))),
+              lsp.CallHierarchyItem(name="n", kind=lsp.SymbolKind.File, uri="file:///a", range=mk_r((0, 0), (0, 0)), selection_range=mk_r((0, 0), (0, 0))),
+              lsp.SelectionRange(range=mk_r((0, 0), (0, 0)))]
     subjects = [("Position", p0), ("Range", r0), ("Location", l0)]
     pairs = []
     for sn, s in subjects:
@@ -117,6 +127,47 @@ def run(ctx):
                     bad("unrelated-order-raises-other", sn, "%s %s %r raises %s, not TypeError" % (sn, name, o, type(e).__name__), [sn, name, repr(o), side])
                     continue
                 bad("unrelated-order-returns", sn, "%s %s %r (%s) returns %r instead of raising TypeError" % (sn, name, o, side, r), [sn, name, repr(o), side])
+    # ---- histories: compare, mutate a component, compare again (equality must follow the components)
+    hist = 0
+    for a in reps[:3]:
+        for b in reps[:3]:
+            r1, r2 = mk_r(a, b), mk_r(a, b)
+            steps = [("end", lambda r: setattr(r, "end", P(line=7, character=7))),
+                     ("end.line", lambda r: setattr(r.end, "line", 9)),
+                     ("start", lambda r: setattr(r, "start", P(line=3, character=3)))]
+            _ = (r1 == r2, repr(r1))
+            for label, mut in steps:
+                mut(r1)
+                hist += 1
+                want = (r1.start.line, r1.start.character, r1.end.line, r1.end.character) == (r2.start.line, r2.start.character, r2.end.line, r2.end.character)
+                if (r1 == r2) is not want or (r1 != r2) is want:
+                    bad("range-eq-after-mutation", "Range==", "after mutating %s of a Range that had been compared before, == gives %r, components say %r" % (label, r1 == r2, want), [a, b, label])
+                mut(r2)
+                hist += 1
+                if (r1 == r2) is not True:
+                    bad("range-eq-after-mutation", "Range==", "two ranges mutated the same way (%s) compare unequal" % label, [a, b, label])
+                want_repr = "%d:%d-%d:%d" % (r1.start.line, r1.start.character, r1.end.line, r1.end.character)
+                if repr(r1) != want_repr:
+                    bad("repr", "Range", "repr after mutation is %r, expected %r" % (repr(r1), want_repr), [a, b, label])
+            l1, l2 = L(uri="file:///a", range=mk_r(a, b)), L(uri="file:///a", range=mk_r(a, b))
+            _ = l1 == l2
+            for label, mut in (("uri", lambda l: setattr(l, "uri", "file:///c")), ("range", lambda l: setattr(l, "range", mk_r((5, 5), (6, 6)))),
+                               ("range.start.line", lambda l: setattr(l.range.start, "line", 4))):
+                mut(l1)
+                hist += 1
+                if (l1 == l2) is not False:
+                    bad("location-eq-after-mutation", "Location==", "after mutating %s of a Location that had been compared before it still equals the unmutated one" % label, [a, b, label])
+                mut(l2)
+                hist += 1
+                if (l1 == l2) is not True:
+                    bad("location-eq-after-mutation", "Location==", "two locations mutated the same way (%s) compare unequal" % label, [a, b, label])
+            pa, pb = P(line=a[0], character=a[1]), P(line=a[0], character=a[1])
+            _ = (pa == pb, pa < pb)
+            pa.line = pa.line + 1
+            hist += 1
+            if not (pa > pb and pa != pb and not pa < pb):
+                bad("position-after-mutation", "Position", "Position comparisons do not follow a mutated line", [a])
+    n += hist
     res.coverage = {
         "states": len(coords) + len(ranges) + len(locs), "transitions": n,
         "traces_validated_against_impl": n, "evaluations": n, "distinct_nontrivial": len(coords) ** 2,
